@@ -131,7 +131,43 @@ func addHeaders(r *http.Request, cfg config.Proxy, stripPath string) error {
 		}
 	}
 
+	// The reverse proxy drops every header the client has listed in the
+	// Connection header (RFC 7230, section 6.1). The headers above are
+	// ours and a client must not be able to have them removed again.
+	keepHeaders(r.Header, cfg.ClientIPHeader, cfg.TLSHeader, "X-Real-Ip",
+		"X-Forwarded-Proto", "X-Forwarded-Port", "X-Forwarded-Host",
+		"X-Forwarded-Prefix", "Forwarded")
+
 	return nil
+}
+
+// keepHeaders removes the given header names from the list of
+// connection options in the Connection header.
+func keepHeaders(h http.Header, names ...string) {
+	var opts []string
+	found := false
+	for _, v := range h["Connection"] {
+		for _, opt := range strings.Split(v, ",") {
+			opt = strings.TrimSpace(opt)
+			keep := opt != ""
+			for _, name := range names {
+				if name != "" && strings.EqualFold(opt, name) {
+					keep, found = false, true
+				}
+			}
+			if keep {
+				opts = append(opts, opt)
+			}
+		}
+	}
+	switch {
+	case !found:
+		return
+	case len(opts) == 0:
+		h.Del("Connection")
+	default:
+		h.Set("Connection", strings.Join(opts, ", "))
+	}
 }
 
 var tlsver = map[uint16]string{
